@@ -112,6 +112,12 @@ class ScriptSock:
     def gettimeout(self):
         return self._timeout
 
+    def close(self):
+        pass
+
+    def shutdown(self, how):
+        pass
+
     def _next(self):
         if len(self.calls) >= 60:
             raise Hang()
@@ -233,7 +239,13 @@ def run_case(socketutil, errors, case):
         if kind == "recv":
             socketutil.USE_MSG_WAITALL = bool(case["waitall"])
             warm_up(socketutil, case)
-            data = socketutil.receive_data(sock, n * B)
+            if ROT[0] % 3 == 0:
+                # (through the connection object that the rest of the library reads with)
+                conn = socketutil.SocketConnection(sock)
+                conn.keep_open = True
+                data = conn.recv(n * B)
+            else:
+                data = socketutil.receive_data(sock, n * B)
             u = to_units(data, B, sock.cache)
             tr["outcome"] = "return"
             tr["data"] = u if u is not None else [-9]
